@@ -1,0 +1,54 @@
+//go:build verif
+
+package sqlparser
+
+// Read-only export for the verification harness (/verif, properties C19/C20): the state of the
+// StaticPredicateGroup the visitor built for the statement's SELECT. No behaviour change.
+
+// VerifStaticPredicate is a copy of one StaticPredicate.
+type VerifStaticPredicate struct {
+	Column          string
+	Min, Max, Equal interface{}
+	Contents        uint16
+}
+
+// VerifSelectRelation returns the SelectRelation of a SELECT or INSERT INTO ... SELECT statement (or nil).
+func VerifSelectRelation(es *ExecutableStatement) *SelectRelation {
+	if es == nil {
+		return nil
+	}
+	if es.GetChildCount() != 0 {
+		switch c := es.GetChild(0).(type) {
+		case *InsertIntoStatement:
+			return c.SelectRelation
+		case *SelectRelation:
+			return c
+		case *ExecutableStatement:
+			return VerifSelectRelation(c)
+		}
+		return nil
+	}
+	if es.nodeCursor == nil {
+		return nil
+	}
+	sr, _ := es.nodeCursor.payload.(*SelectRelation)
+	return sr
+}
+
+// VerifStaticPredicates lists the static predicates of the statement's SELECT (map order).
+func VerifStaticPredicates(es *ExecutableStatement) []VerifStaticPredicate {
+	sr := VerifSelectRelation(es)
+	if sr == nil {
+		return nil
+	}
+	var out []VerifStaticPredicate
+	for name, sp := range sr.StaticPredicates {
+		if sp == nil {
+			continue
+		}
+		out = append(out, VerifStaticPredicate{
+			Column: name, Min: sp.min, Max: sp.max, Equal: sp.equal, Contents: uint16(sp.ContentsEnum),
+		})
+	}
+	return out
+}
